@@ -327,7 +327,9 @@ pub fn check_program(p: &Program, st: &mut Stats, order: u64, part: &str) -> Opt
     }
     // contents handed over through write_vectored into a sink that answers ONE write call with ErrorKind::Interrupted (nothing
     // taken; the caller calls again, as std's write_all_vectored does) - at every write-call index: no byte may be written twice
-    if matches!(part, "method-level" | "size-neutral-contents" | "comments") && bytes_f.len() < 3_000 {
+    // (zstd's upper levels set up a very large match finder on every start_file: those programs are left to the plain runs)
+    let cheap_codec = p.entries.iter().all(|e| !(e.opts.method == 93 && e.opts.level.map_or(false, |l| l > 12)));
+    if matches!(part, "method-level" | "size-neutral-contents" | "comments") && bytes_f.len() < 3_000 && cheap_codec {
         use crate::sio::inst::{plan, Dev, Kind};
         let p0 = plan();
         let (rb, bb) = with_vectored_writes(|| exec_plan(&calls_f, &srcs, p0.clone()));
@@ -349,7 +351,7 @@ pub fn check_program(p: &Program, st: &mut Stats, order: u64, part: &str) -> Opt
                     break;
                 }
                 // the same interruption, the writer completed by drop instead of finish() (plain writes): identical bytes
-                if rk.iter().all(|r| r.is_ok()) {
+                if rk.iter().all(|r| r.is_ok()) && p.entries.iter().all(|e| e.opts.level.is_none() || e.opts.method == 0) {
                     let mk = || {
                         let pk = plan();
                         pk.borrow_mut().record_kinds = false;
@@ -536,6 +538,7 @@ fn replay(case: &Value, st: &mut Stats, seed: u64) {
 /// Enumerate the whole C01 program space, calling `f` on every program. Shared with C02.
 pub fn enumerate(thorough: bool, seed: u64, f: &(dyn Fn(&Program, u64, &str, &mut Stats) + Sync)) -> (Stats, serde_json::Map<String, Value>) {
     let mut total_stats = Stats::default();
+    let t_start = std::time::Instant::now();
     let mut bounds = serde_json::Map::new();
     let nm = names();
     let tms = times();
@@ -590,6 +593,7 @@ pub fn enumerate(thorough: bool, seed: u64, f: &(dyn Fn(&Program, u64, &str, &mu
         }
     });
     total_stats.merge(s);
+    crate::diag!("  [C01/C02] program space: step {} done at {:.1}s ({} evaluations so far)", line!(), t_start.elapsed().as_secs_f64(), total_stats.evals);
 
     // (2) all permission values x kinds
     let s = par_for(512 * 3, 16, |i, st| {
@@ -599,6 +603,7 @@ pub fn enumerate(thorough: bool, seed: u64, f: &(dyn Fn(&Program, u64, &str, &mu
         f(&one(e), (1 << 32) + i, "perm-sweep", st);
     });
     total_stats.merge(s);
+    crate::diag!("  [C01/C02] program space: step {} done at {:.1}s ({} evaluations so far)", line!(), t_start.elapsed().as_secs_f64(), total_stats.evals);
     bounds.insert("perm_sweep".into(), json!("all 512 values x {file,dir,symlink}"));
 
     // (3) date/time sweeps
@@ -616,6 +621,7 @@ pub fn enumerate(thorough: bool, seed: u64, f: &(dyn Fn(&Program, u64, &str, &mu
         }
     });
     total_stats.merge(s);
+    crate::diag!("  [C01/C02] program space: step {} done at {:.1}s ({} evaluations so far)", line!(), t_start.elapsed().as_secs_f64(), total_stats.evals);
     bounds.insert("timestamp_sweep".into(), json!("all 2^16 date words x 3 time words + 3 date words x all 2^16 time words"));
 
     // (4) every documented method/level x content class
@@ -630,6 +636,7 @@ pub fn enumerate(thorough: bool, seed: u64, f: &(dyn Fn(&Program, u64, &str, &mu
         }
     });
     total_stats.merge(s);
+    crate::diag!("  [C01/C02] program space: step {} done at {:.1}s ({} evaluations so far)", line!(), t_start.elapsed().as_secs_f64(), total_stats.evals);
     bounds.insert("method_level".into(), json!(format!("{} documented (method, level) pairs x {} content classes", ml.len(), n_content)));
 
     // (4b) content sizes at and around internal buffer boundaries, every method, compressible and not
@@ -645,6 +652,7 @@ pub fn enumerate(thorough: bool, seed: u64, f: &(dyn Fn(&Program, u64, &str, &mu
         f(&one(e), (8 << 32) + i as u64, "size-boundaries", st);
     });
     total_stats.merge(s);
+    crate::diag!("  [C01/C02] program space: step {} done at {:.1}s ({} evaluations so far)", line!(), t_start.elapsed().as_secs_f64(), total_stats.evals);
     bounds.insert("size_boundaries".into(), json!({"sizes": sizes, "methods": 4, "payloads": ["repeating", "seed-derived incompressible"]}));
 
     // (5) comments at length 0 and 1
@@ -658,6 +666,7 @@ pub fn enumerate(thorough: bool, seed: u64, f: &(dyn Fn(&Program, u64, &str, &mu
         f(&Program { entries, comment: c, comment_last: last }, (4 << 32) + i, "comments", st);
     });
     total_stats.merge(s);
+    crate::diag!("  [C01/C02] program space: step {} done at {:.1}s ({} evaluations so far)", line!(), t_start.elapsed().as_secs_f64(), total_stats.evals);
     bounds.insert("comments".into(), json!("{none, empty, 1 byte, 65535 bytes, non-ASCII} x {set before, set after} x {no entry, each of 12 base entries}"));
 
     // (6) entry lists of length 2, 3 (4)
@@ -674,6 +683,7 @@ pub fn enumerate(thorough: bool, seed: u64, f: &(dyn Fn(&Program, u64, &str, &mu
         }
     });
     total_stats.merge(s);
+    crate::diag!("  [C01/C02] program space: step {} done at {:.1}s ({} evaluations so far)", line!(), t_start.elapsed().as_secs_f64(), total_stats.evals);
     let alpha3 = entry_alphabet(seed, a3);
     let s = par_for((a3 * a3 * a3) as u64, 4, |i, st| {
         let j = i as usize;
@@ -685,6 +695,7 @@ pub fn enumerate(thorough: bool, seed: u64, f: &(dyn Fn(&Program, u64, &str, &mu
         f(&p, (6 << 32) + i, "len3", st);
     });
     total_stats.merge(s);
+    crate::diag!("  [C01/C02] program space: step {} done at {:.1}s ({} evaluations so far)", line!(), t_start.elapsed().as_secs_f64(), total_stats.evals);
     if a4 > 0 {
         let alpha4 = entry_alphabet(seed, a4);
         let s = par_for((a4 * a4 * a4 * a4) as u64, 4, |i, st| {
@@ -697,6 +708,7 @@ pub fn enumerate(thorough: bool, seed: u64, f: &(dyn Fn(&Program, u64, &str, &mu
             f(&p, (7 << 32) + i, "len4", st);
         });
         total_stats.merge(s);
+        crate::diag!("  [C01/C02] program space: step {} done at {:.1}s ({} evaluations so far)", line!(), t_start.elapsed().as_secs_f64(), total_stats.evals);
     }
     // (10) names that differ only in separator direction, case, a leading / trailing separator, a NUL, a space: every ordered pair
     let shapes: Vec<String> = ["a/b", "a\\b", "A/B", "a/b/", "a\\b\\", "/a/b", "a//b", "./a/b", "a/b\0", "a/b ", "", " ", "a", "a/", "caf\u{e9}", "cafe\u{301}", "\u{feff}a", "a\u{a0}b"]
@@ -716,6 +728,7 @@ pub fn enumerate(thorough: bool, seed: u64, f: &(dyn Fn(&Program, u64, &str, &mu
         f(&Program { entries: vec![e0, e1], comment: None, comment_last: false }, (10 << 32) + i as u64, "name-pairs", st);
     });
     total_stats.merge(s);
+    crate::diag!("  [C01/C02] program space: step {} done at {:.1}s ({} evaluations so far)", line!(), t_start.elapsed().as_secs_f64(), total_stats.evals);
     bounds.insert("name_pairs".into(), json!({"names": shapes, "programs": "every ordered pair of distinct names as a two-file archive"}));
     // (11) comments longer than a buffered reader's refill (8 KiB) and around it
     let clens = [8169usize, 8170, 8171, 8192, 8193, 16384, 40000, 65534];
@@ -726,6 +739,7 @@ pub fn enumerate(thorough: bool, seed: u64, f: &(dyn Fn(&Program, u64, &str, &mu
         f(&Program { entries, comment: Some(comment), comment_last: i % 2 == 1 }, (11 << 32) + i, "long-comments", st);
     });
     total_stats.merge(s);
+    crate::diag!("  [C01/C02] program space: step {} done at {:.1}s ({} evaluations so far)", line!(), t_start.elapsed().as_secs_f64(), total_stats.evals);
     bounds.insert("long_comments".into(), json!({"lengths": clens, "entries": [0, 1]}));
     // (12) contents that look like archive structure: a small finished archive (with its own end record and comment) and bare
     // record signatures as the content of the last / only / middle entry, stored and compressed - contents are unrestricted,
@@ -758,6 +772,7 @@ pub fn enumerate(thorough: bool, seed: u64, f: &(dyn Fn(&Program, u64, &str, &mu
         f(&Program { entries, comment: if with_comment { Some(b"outer".to_vec()) } else { None }, comment_last: false }, (12 << 32) + i as u64, "structure-like-contents", st);
     });
     total_stats.merge(s);
+    crate::diag!("  [C01/C02] program space: step {} done at {:.1}s ({} evaluations so far)", line!(), t_start.elapsed().as_secs_f64(), total_stats.evals);
     bounds.insert("structure_like_contents".into(), json!("{a finished 2-entry archive, two of them, 6 record signatures amid zeros} x 4 methods x {only, last of 2, middle of 3} x {no comment, comment}"));
     // (13) contents whose compressed form is exactly as long as they are (per method): equal sizes are not "stored"
     {
@@ -775,6 +790,7 @@ pub fn enumerate(thorough: bool, seed: u64, f: &(dyn Fn(&Program, u64, &str, &mu
             f(&Program { entries, comment: None, comment_last: false }, (13 << 32) + i, "size-neutral-contents", st);
         });
         total_stats.merge(s);
+        crate::diag!("  [C01/C02] program space: step {} done at {:.1}s ({} evaluations so far)", line!(), t_start.elapsed().as_secs_f64(), total_stats.evals);
         bounds.insert("size_neutral_contents".into(), json!(neutral.iter().map(|(m, c)| format!("method {m}: {} bytes", c.len())).collect::<Vec<_>>()));
     }
     // (14) neighbours of another making: a raw copy, a file with extra data, an aligned file - before, after and between the
@@ -805,6 +821,7 @@ pub fn enumerate(thorough: bool, seed: u64, f: &(dyn Fn(&Program, u64, &str, &mu
             f(&Program { entries, comment: if j % 2 == 0 { None } else { Some(b"neighbours".to_vec()) }, comment_last: j % 4 == 1 }, (14 << 32) + i, "neighbours", st);
         });
         total_stats.merge(s);
+        crate::diag!("  [C01/C02] program space: step {} done at {:.1}s ({} evaluations so far)", line!(), t_start.elapsed().as_secs_f64(), total_stats.evals);
         bounds.insert("neighbours".into(), json!("{raw copy, file with a shared extra block, file aligned to 64} x {before each, after each, between every ordered pair} of the 12 base entries"));
     }
     // (9) entry counts around the 16-bit limit x comment variants (the end records change shape at 65536 entries)
@@ -822,6 +839,7 @@ pub fn enumerate(thorough: bool, seed: u64, f: &(dyn Fn(&Program, u64, &str, &mu
         f(&p, (9 << 32) + i, "many-entries", st);
     });
     total_stats.merge(s);
+    crate::diag!("  [C01/C02] program space: step {} done at {:.1}s ({} evaluations so far)", line!(), t_start.elapsed().as_secs_f64(), total_stats.evals);
     bounds.insert("many_entries".into(), json!("{65534, 65535, 65536, 65537} entries x comment {none, 1 byte, 300 bytes}"));
     (total_stats, bounds)
 }
